@@ -574,7 +574,7 @@ Theorem will_msg_fields w :
 Proof. repeat split. Qed.
 
 (* Target 5.  send_will delivers - to the subscribers matching at that moment - the registered will, or the
-   hook's rewrite of its topic / payload / QoS; a retained will updates the retained store by retain_update, the
+   hook's rewrite of its topic / payload / QoS / RETAIN flag; a retained will updates the retained store by retain_update, the
    function the publish handler applies for a retained PUBLISH (pub_fwd, Proofs/BrokerQos2P.v) *)
 Theorem will_message_fields cid m s :
   match will_effective cid m s with
@@ -582,7 +582,8 @@ Theorem will_message_fields cid m s :
       send_will cid m s = (let '(s', o, _) := deliver cid m' (retain_update m' s) in (s', o)) /\
       b_ret (fst (send_will cid m s)) = b_ret (retain_update m' s) /\
       (m' = m \/ exists t p q, m' = with_topic_payload_qos t p q m) /\
-      m_retained m' = m_retained m /\ m_ctype m' = m_ctype m /\ m_corr m' = m_corr m /\ m_expiry m' = m_expiry m /\
+      m_retained m' = (match will_action cid s with MRewrite _ _ q => rw_retain q (m_retained m) | _ => m_retained m end) /\
+      m_ctype m' = m_ctype m /\ m_corr m' = m_corr m /\ m_expiry m' = m_expiry m /\
       m_pfmt m' = m_pfmt m /\ m_resp m' = m_resp m /\ m_uprops m' = m_uprops m
   | None => send_will cid m s = (s, [])
   end.
